@@ -5,6 +5,7 @@ import (
 	"fmt"
 	"os"
 	goruntime "runtime"
+	"sync"
 	"sync/atomic"
 	"time"
 
@@ -33,6 +34,35 @@ type limiterStub struct {
 	grant int32
 	tb    bool // grants are token buckets (qps = burst = grant)
 	calls int64
+
+	// what the server-side state is "now" changes in generations (a new grant, or a new object version whose global limit
+	// the gateway reports): startedInGen counts the allocate calls that STARTED in the current generation - a call that was
+	// already in flight when the generation began legitimately carries the previous state
+	mu           sync.Mutex
+	gen          int64
+	startedInGen int64
+}
+
+func (s *limiterStub) setGrant(q int32) {
+	s.mu.Lock()
+	atomic.StoreInt32(&s.grant, q)
+	s.gen++
+	s.startedInGen = 0
+	s.mu.Unlock()
+}
+
+// newGeneration: something the gateway must pick up has just changed (without a new grant)
+func (s *limiterStub) newGeneration() {
+	s.mu.Lock()
+	s.gen++
+	s.startedInGen = 0
+	s.mu.Unlock()
+}
+
+func (s *limiterStub) startedSinceChange() int64 {
+	s.mu.Lock()
+	defer s.mu.Unlock()
+	return s.startedInGen
 }
 
 func newLimiterStub(id string) *limiterStub {
@@ -45,7 +75,10 @@ func newLimiterStub(id string) *limiterStub {
 		req, _ := ua.GetObject().(*proxyv1alpha1.RateLimitCondition)
 		atomic.AddInt64(&s.calls, 1)
 		ret := req.DeepCopy()
+		s.mu.Lock()
 		q := atomic.LoadInt32(&s.grant)
+		s.startedInGen++
+		s.mu.Unlock()
 		for i := range ret.Spec.LimitItemConfigurations {
 			if s.tb {
 				ret.Spec.LimitItemConfigurations[i].LimitItemDetail = proxyv1alpha1.LimitItemDetail{
@@ -141,9 +174,8 @@ func remoteHistories(r *vkit.R) {
 	}
 	// The bound is counted in the CONTROL's progress, not in wall-clock time (a stall of the whole test process must not look
 	// like a dead reconcile loop): the fresh gateway's own reconcile loop (same period, same process) must complete
-	// controlRounds further allocate round trips while the history gateway still has not caught up.
-	const controlRounds = 4
-	r.Assume("remote limiter: a cluster whose effective limit / remote configuration has not caught up while the reconcile loop of the fresh gateway (the control: same period, same process, same load) completed 4 further rounds, is not following the limiter server")
+	// see the comment at the waiting loop below.
+	r.Assume("remote limiter: a cluster that still differs from the fresh gateway after 3 reconcile rounds of its own loop that started after the last change, or whose loop started no round at all while the loop of the fresh gateway (the control: same period, same process, same load) completed 6, is not following the limiter server; anything slower ends INCONCLUSIVE at the watchdog")
 	r.Parallel(n, 16, func(i int, g *vkit.Rand) {
 		kind := i % 3
 		hstub := newLimiterStub(fmt.Sprintf("gw-hist-%d", i))
@@ -154,7 +186,7 @@ func remoteHistories(r *vkit.R) {
 		}
 		gas := []int32{40, 50, 60}
 		ga := gas[g.Intn(len(gas))]
-		atomic.StoreInt32(&hstub.grant, grants[g.Intn(len(grants))])
+		hstub.setGrant(grants[g.Intn(len(grants))])
 		gate := g.Chance(0.7)
 		type step struct {
 			GateOn bool  `json:"globalRateLimiterGate"`
@@ -192,7 +224,7 @@ func remoteHistories(r *vkit.R) {
 				phase = 2
 			}
 			if g.Chance(0.6) {
-				atomic.StoreInt32(&hstub.grant, grants[g.Intn(len(grants))])
+				hstub.setGrant(grants[g.Intn(len(grants))])
 			}
 			if kind == 2 && g.Chance(0.6) {
 				ga = gas[g.Intn(len(gas))]
@@ -207,7 +239,7 @@ func remoteHistories(r *vkit.R) {
 		// the final grant: a value the server never granted before; for the count strategy a last version with a global limit
 		// never used before (only the global limit changes: the local limiter is not touched)
 		final := int32(17 + i%7)
-		atomic.StoreInt32(&hstub.grant, final)
+		hstub.setGrant(final)
 		if kind == 2 {
 			ga = int32(70 + i%5)
 			steps = append(steps, step{gate, final})
@@ -215,10 +247,11 @@ func remoteHistories(r *vkit.R) {
 				r.Inconclusive(fmt.Sprintf("remote history %d: Sync of a valid object failed: %v", i, err))
 				return
 			}
+			hstub.newGeneration() // reconcile rounds that start from now on see the final global limit
 		}
 		fstub := newLimiterStub(fmt.Sprintf("gw-fresh-%d", i))
 		fstub.tb = kind == 1
-		atomic.StoreInt32(&fstub.grant, final)
+		fstub.setGrant(final)
 		finfo, err := clusters.CreateClusterInfo(remoteVer(gate, kind, ga).Build(mat), nil, "remote", fstub)
 		if err != nil {
 			r.Inconclusive(fmt.Sprintf("remote history %d: fresh CreateClusterInfo failed: %v", i, err))
@@ -260,28 +293,45 @@ func remoteHistories(r *vkit.R) {
 			r.Count("remote_histories_gate_on_at_the_end", 1)
 		}
 		r.Count(fmt.Sprintf("remote_histories_schema_kind_%d", kind), 1)
-		callsBefore := atomic.LoadInt64(&hstub.calls)
-		caughtUp := false
+		// Waiting ends when the history gateway shows what the fresh one shows, or when it has had its chance: `hotRounds`
+		// reconcile rounds of ITS OWN loop that started after the last change (a round already in flight when the change
+		// was made carries the old state; rounds run one after the other, so when the 3rd has started the first two have been
+		// applied completely), or when its loop is evidently not running: no such round at all while the loop of the fresh
+		// gateway (the control: same period, same process, same load) completed `deadRounds` rounds. Anything else - a slow
+		// machine, a stalled process - ends at the watchdog as INCONCLUSIVE. The verdict is computed from ONE read of both
+		// gateways taken after the waiting has ended, and the message prints exactly these values.
+		const hotRounds, deadRounds = 3, 6
+		reason := ""
 		if gate {
 			f0 := atomic.LoadInt64(&fstub.calls)
-			if !vkit.WaitFor(120*time.Second, func() bool {
-				caughtUp = remoteObs(r, info, kind, gate) == want
-				return caughtUp || atomic.LoadInt64(&fstub.calls) >= f0+controlRounds
+			if !vkit.WaitFor(180*time.Second, func() bool {
+				if remoteObs(r, info, kind, gate) == remoteObs(r, finfo, kind, gate) {
+					return true
+				}
+				hs := hstub.startedSinceChange()
+				switch {
+				case hs >= hotRounds:
+					reason = fmt.Sprintf("its reconcile loop started %d rounds after the last change", hs)
+					return true
+				case hs == 0 && atomic.LoadInt64(&fstub.calls) >= f0+deadRounds:
+					reason = fmt.Sprintf("its reconcile loop started no round after the last change while the loop of the fresh gateway completed %d", atomic.LoadInt64(&fstub.calls)-f0)
+					return true
+				}
+				return false
 			}) {
-				r.Inconclusive("remote: the reconcile loop of the fresh gateway (control) did not complete 4 rounds within the 120s watchdog")
+				r.Inconclusive(fmt.Sprintf("remote: the history gateway neither caught up nor had %d reconcile rounds of its own within the 180s watchdog (rounds since the last change: %d; control rounds: %d)",
+					hotRounds, hstub.startedSinceChange(), atomic.LoadInt64(&fstub.calls)-f0))
 				return
 			}
-			if !caughtUp {
-				caughtUp = remoteObs(r, info, kind, gate) == want
-			}
-		} else {
-			// gate off: nothing asynchronous is involved, the local limiter is in effect as soon as Sync has returned
-			caughtUp = remoteObs(r, info, kind, gate) == want
 		}
-		if !caughtUp {
+		// the one final read (with the gate off nothing asynchronous is involved: the local limiter is in effect as soon as
+		// Sync has returned)
+		hv, fv := remoteObs(r, info, kind, gate), remoteObs(r, finfo, kind, gate)
+		if hv != fv {
 			sig := "C11/remote-limiter/does-not-follow-server/" + class
 			if !gate {
 				sig = "C11/remote-limiter/limit-diverges-with-gate-off/" + class
+				reason = "the gate is off: nothing to wait for"
 			}
 			if f := os.Getenv("C11_DEBUG_STACKS"); f != "" {
 				buf := make([]byte, 64<<20)
@@ -289,9 +339,9 @@ func remoteHistories(r *vkit.R) {
 				_ = os.WriteFile(fmt.Sprintf("%s.%d", f, i), buf, 0o644)
 			}
 			kinds := []string{"max in flight, globalAllocate: measured limit", "token bucket, globalAllocate: remote configuration held", "max in flight, globalCount: remote configuration held"}
-			r.Violation(sig, fmt.Sprintf("schema %s (%s), GlobalRateLimiter gate on=%v in the latest object, server grants %d, global limit %d: a fresh gateway has %s, the gateway that processed the history has %s and made %d allocate calls while waiting",
-				remoteSchema, kinds[kind], gate, final, ga, remoteObs(r, finfo, kind, gate), remoteObs(r, info, kind, gate), atomic.LoadInt64(&hstub.calls)-callsBefore),
-				map[string]interface{}{"history": i, "versions": steps, "final_server_grant": final})
+			r.Violation(sig, fmt.Sprintf("schema %s (%s), GlobalRateLimiter gate on=%v in the latest object, server grants %d, global limit %d: a fresh gateway has %s, the gateway that processed the history has %s (%s)",
+				remoteSchema, kinds[kind], gate, final, ga, fv, hv, reason),
+				map[string]interface{}{"history": i, "versions": steps, "final_server_grant": final, "compared_fresh": fv, "compared_history": hv})
 		}
 	})
 	r.Require(r.Counter("remote_histories") >= int64(n*9/10), "remote: too few histories completed")
